@@ -59,9 +59,9 @@ SHRINK_ORDER = ['ops', 'sched', 'cfg', 'data']
 
 KINDS = ['mass2d', 'stiff2d', 'mass3d', 'stiff3d', 'divdiv2d', 'l2f2d',
          'mass1d', 'conv2d', 'field2d', 'vec21', 'pg2d', 'bdry2d', 'fun2d', 'vec22p',
-         'fieldgrad2d', 'vfun2d', 'divdiv3d', 'fieldvec2d', 'vec1d', 'th2d']
+         'fieldgrad2d', 'vfun2d', 'divdiv3d', 'fieldvec2d', 'vec1d', 'th2d', 'matpar2d', 'matparvec2d']
 COMPILED = ['mass1d', 'conv2d', 'field2d', 'vec21', 'pg2d', 'bdry2d', 'fun2d', 'vec22p', 'fieldgrad2d', 'vfun2d',
-            'fieldvec2d', 'vec1d', 'th2d']
+            'fieldvec2d', 'vec1d', 'th2d', 'matpar2d', 'matparvec2d']
 ONDEMAND = ['conv2d', 'field2d', 'mass2d']
 
 
@@ -143,6 +143,22 @@ def make_form(kind):
         u, v = V.basisfuns(components=(2, 2))
         b = V.parameter('b', shape=(2,))
         V.add((inner(u, v) + inner(b, u) * inner(b, v)) * dx)
+        return V
+    if kind == 'matpar2d':
+        # scalar form with a (non-symmetric) matrix-valued parameter
+        from pyiga.vform import dot
+        V = VForm(2)
+        u, v = V.basisfuns()
+        Q = V.parameter('Q', shape=(2, 2))
+        V.add((inner(dot(Q, grad(u)), grad(v)) + u * v) * dx)
+        return V
+    if kind == 'matparvec2d':
+        # vector-valued form (2 trial components, 3 test components) with a NON-SQUARE matrix-valued parameter
+        from pyiga.vform import dot
+        V = VForm(2)
+        u, v = V.basisfuns(components=(2, 3))
+        Bm = V.parameter('Bm', shape=(3, 2))
+        V.add(inner(dot(Bm, u), v) * dx)
         return V
     if kind == 'pg2d':
         V = VForm(2)
@@ -416,6 +432,30 @@ def fields(dim):
     return out
 
 
+QS = [np.array([[2.0, 0.5], [-1.0, 3.0]]), np.array([[1.0, 2.0], [0.0, 1.0]]), np.array([[0.5, -0.25], [0.75, 1.5]])]
+BMS = [np.array([[1.0, 2.0], [3.0, 4.0], [5.0, 6.0]]), np.array([[0.5, 0.0], [-1.0, 2.0], [0.25, -3.0]])]
+NLAYOUTS = 6
+
+
+def relayout(M, k):
+    """the same VALUES in different memory layouts / container types (what a caller may legitimately pass)"""
+    M = np.array(M, dtype=float)
+    if k == 1:
+        return np.asfortranarray(M)                 # column-major (e.g. the transpose of something)
+    if k == 2:                                      # strided view into a larger array
+        big = np.full(tuple(2 * n for n in M.shape), 99.0)
+        view = big[tuple(slice(None, None, 2) for _ in M.shape)]
+        view[...] = M
+        return view
+    if k == 3:
+        return M.tolist()
+    if k == 4:                                      # negative strides
+        return np.flip(np.flip(M).copy())
+    if k == 5 and M.ndim == 2:                      # transposed view of the transposed copy
+        return M.T.copy().T
+    return M.copy()
+
+
 class Case:
     """builds assembler instances of one kind for given model inputs"""
 
@@ -438,7 +478,7 @@ class Case:
         # keeps a single function object and updates its values)
         from pyiga import bspline as _bs
         self.mfield = _bs.BSplineFunc(self.fields[0].kvs, np.array(self.fields[0].coeffs, copy=True))
-        self.state = {'f': 0, 'a': 1.5, 'b': (0.5, -1.0)}
+        self.state = {'f': 0, 'a': 1.5, 'b': (0.5, -1.0), 'Q': 0}
         self.kvs1 = None
         if kind in ('pg2d', 'th2d'):
             from pyiga import bspline
@@ -447,23 +487,27 @@ class Case:
         if kind == 'bdry2d':
             self.boundary = [(0, 0), (0, 1), (1, 0), (1, 1)][s.choice(4)]
         self.arity = 1 if kind in ('l2f2d', 'fun2d', 'vfun2d') else 2
-        self.vector = kind in ('divdiv2d', 'vec21', 'vec22p', 'divdiv3d', 'fieldvec2d', 'vec1d', 'th2d')
+        self.vector = kind in ('divdiv2d', 'vec21', 'vec22p', 'divdiv3d', 'fieldvec2d', 'vec1d', 'th2d', 'matparvec2d')
         self.symmetric_form = kind in ('mass1d', 'mass2d', 'mass3d', 'stiff2d', 'stiff3d', 'divdiv2d', 'field2d', 'bdry2d',
                                        'vec22p', 'divdiv3d', 'fieldvec2d', 'vec1d')
         self._ref = {}
 
-    def args(self, st):
+    def args(self, st, lay=0):
         a = {'geo': self.geo}
+        if self.kind == 'matpar2d':
+            a['Q'] = relayout(QS[st['Q']], lay)
+        if self.kind == 'matparvec2d':
+            a['Bm'] = relayout(BMS[st['Q'] % len(BMS)], lay)
         if self.kind in ('field2d', 'fun2d', 'l2f2d', 'fieldgrad2d', 'vfun2d', 'fieldvec2d'):
             a['f'] = self.fields[st['f']]
         if self.kind == 'conv2d':
             a['a'] = st['a']
         if self.kind == 'vec22p':
-            a['b'] = np.array(st['b'])
+            a['b'] = relayout(np.array(st['b']), lay)
         return a
 
-    def instantiate(self, st, on_demand=False, bbox=None):
-        a = self.args(st)
+    def instantiate(self, st, on_demand=False, bbox=None, lay=0):
+        a = self.args(st, lay)
         cls = self.cls_od if on_demand else self.cls
         if on_demand:
             a['bbox'] = bbox
@@ -485,7 +529,7 @@ class Case:
     def reference(self, st):
         """dense reference for the inputs `st`: fresh object, calling thread, one thread"""
         import pyiga
-        key = (st['f'], st['a'], tuple(st['b']))
+        key = (st['f'], st['a'], tuple(st['b']), st['Q'])
         if key in self._ref:
             return self._ref[key]
         old = pyiga.get_max_threads()
@@ -607,7 +651,10 @@ def _run(ctx, kind, fam, ctl):
                     return
         finally:
             case.kvs = main_kvs
-    asm = case.instantiate(st)
+    lay0 = o.choice(NLAYOUTS) if kind in ('matpar2d', 'matparvec2d', 'vec22p') else 0
+    if lay0:
+        ctx.log(['parameter-layout', lay0])
+    asm = case.instantiate(st, lay=lay0)
     m, n = case.shape()
     updated = False
     wrapper = [None]
@@ -678,7 +725,7 @@ def _run(ctx, kind, fam, ctl):
                 ops += [('rows', 2)]
         if kind in ('field2d', 'fun2d', 'fieldgrad2d', 'vfun2d', 'fieldvec2d'):
             ops += [('update', 3), ('wrapper', 2)]
-        if kind in ('conv2d', 'vec22p'):
+        if kind in ('conv2d', 'vec22p', 'matpar2d', 'matparvec2d'):
             ops += [('update_params', 3)]
         if kind in ONDEMAND:
             ops += [('ondemand', 2)]
@@ -712,10 +759,20 @@ def _run(ctx, kind, fam, ctl):
                 st['a'] = [0.5, 1.5, -2.0, 3.25][o.choice(4)]
                 ctx.log(['update_params', st['a']])
                 r = ctx.call('update_params', asm.update_params, a=st['a'])
+            elif kind in ('matpar2d', 'matparvec2d'):
+                st['Q'] = (st['Q'] + 1 + o.choice(2)) % 3
+                lay = o.choice(NLAYOUTS)
+                ctx.log(['update_params', 'Q%d' % st['Q'], 'layout', lay])
+                ctx.count('op.update_params.layout%d' % lay)
+                if kind == 'matpar2d':
+                    r = ctx.call('update_params', asm.update_params, Q=relayout(QS[st['Q']], lay))
+                else:
+                    r = ctx.call('update_params', asm.update_params, Bm=relayout(BMS[st['Q'] % len(BMS)], lay))
             else:
                 st['b'] = [(0.5, -1.0), (2.0, 0.25), (0.0, 1.0)][o.choice(3)]
-                ctx.log(['update_params', list(st['b'])])
-                r = ctx.call('update_params', asm.update_params, b=np.array(st['b']))
+                lay = o.choice(NLAYOUTS)
+                ctx.log(['update_params', list(st['b']), 'layout', lay])
+                r = ctx.call('update_params', asm.update_params, b=relayout(np.array(st['b']), lay))
             if r is RAISED():
                 return
             updated = True
@@ -789,7 +846,7 @@ def _run(ctx, kind, fam, ctl):
             symmetric = bool(o.choice(2)) and case.symmetric_form and case.arity == 2
             fmt = ['csr', 'csc', 'coo', 'bsr', 'mlb'][o.choice(5 if case.vector else 4)]
             layout = ['blocked', 'packed'][o.choice(2)]
-            a = case.args(st)
+            a = case.args(st, o.choice(NLAYOUTS) if kind in ('matpar2d', 'matparvec2d', 'vec22p') else 0)
             kw = {}
             if case.boundary is not None:
                 kw['boundary'] = case.boundary
@@ -997,4 +1054,5 @@ def main_check(prop, tier, seed, cfg, args):
     except Exception as e:
         print('HARNESS-ERROR property=%s precompile failed: %r' % (prop, e))
         return 2
-    return runner.run_check(prop, tier, seed, cfg['nruns'], wall_cap=cfg.get('wall_cap', 3000), extra_evidence=extra)
+    params = {'kind': args.only} if getattr(args, 'only', None) in KINDS else None      # development aid: one kind only
+    return runner.run_check(prop, tier, seed, cfg['nruns'], wall_cap=cfg.get('wall_cap', 3000), extra_evidence=extra, params=params)
